@@ -55,7 +55,7 @@ type DKGActor struct {
 func (a *DKGActor) OnBlock(e *Env, blk *world.BlockRecord) {}
 
 var dkgDeviations = []string{"r1_bad_a0sig", "r1_wrong_len_commits", "r1_other_member_id", "r2_corrupt_share", "r2_wrong_count", "r2_share_for_other",
-	"r3_false_complaint", "r3_bad_keysym", "r3_bad_confirm_sig", "dup_r1", "dup_r2", "r3_complain_self", "dup_r3"}
+	"r3_false_complaint", "r3_bad_keysym", "r3_bad_confirm_sig", "dup_r1", "dup_r2", "r3_complain_self", "dup_r3", "r3_forged_complainant"}
 
 func (a *DKGActor) state(e *Env, gid uint64, m *TSSMember, mid uint64, size uint64) *dkgState {
 	if a.States == nil {
@@ -291,6 +291,18 @@ func (a *DKGActor) round3(e *Env, m *TSSMember, st *dkgState, g tsstypes.Group) 
 		return
 	}
 	addr := m.Acc.Addr.String()
+	if st.Deviation == "r3_forged_complainant" && st.Target != 0 && st.Target != st.MemberID {
+		// a complaint filed in ANOTHER member's name (well-formed key and signature that cannot verify for that member)
+		r1me, err1 := groupRes.GetRound1Info(tss.MemberID(st.MemberID))
+		r1other, err2 := groupRes.GetRound1Info(tss.MemberID(st.Target))
+		if err1 == nil && err2 == nil {
+			if sig, keySym, err := tss.SignComplaint(r1me.OneTimePubKey, r1other.OneTimePubKey, dkg.OneTimePrivKey); err == nil {
+				cs := []tsstypes.Complaint{{Complainant: tss.MemberID(st.Target), Respondent: tss.MemberID(st.MemberID), KeySym: keySym, Signature: sig}}
+				e.Submit(m.Acc, "dkg_complain", &dkgMeta{Member: m, State: st, Round: 3, Kind: st.Deviation, Complaints: cs}, tsstypes.NewMsgComplain(g.ID, cs, addr))
+			}
+		}
+		// ... and then the member's own honest round-3 message follows below
+	}
 	switch st.Deviation {
 	case "r3_false_complaint", "r3_bad_keysym", "r3_complain_self":
 		if st.Target != 0 && len(complaints) == 0 {
@@ -400,6 +412,10 @@ func (t *TransitionDriver) Act(e *Env) {
 		off = bp.MaxTransitionDuration + 20*time.Second // too late -> rejected
 	}
 	exec := base.Add(off).Truncate(time.Second)
+	if e.Ch.Bool("trans.exec.subsecond", 400) {
+		// execution times need not be whole seconds; blocks can fall into the same second before or after them
+		exec = exec.Add(time.Duration(1+e.Ch.Intn("trans.exec.nanos", 999)) * time.Millisecond)
+	}
 	if e.Ch.Bool("trans.force", t.ForceP) {
 		// force transition to some ACTIVE group other than the current one
 		cur := bk.GetCurrentGroup(ctx).GroupID
